@@ -166,92 +166,54 @@ Proof.
 Qed.
 
 (* ------------------------------------------------------------------------------------------ *)
-(** * When does [run] panic?  Only when a u32 loop bound overflows. *)
-
-(* some loop-range arithmetic on terms of manager m exceeds u32 *)
-Definition overflow_at (m : mgr) : Prop :=
-  (exists a b, owned m a /\ owned m b /\ add_overflow a b) \/
-  (exists e x xr rng, owned m e /\ lr_valid rng /\ rnode e = NLoop x xr /\
-     (lr_rmie xr rng = None \/ (lr_rmie xr rng = Some true /\ lr_mul xr rng = None))).
-Definition overflow_after (m : mgr) : Prop := exists m1, wf m1 /\ ext m m1 /\ overflow_at m1.
-
-Lemma overflow_after_ext m m1 : ext m m1 -> overflow_after m1 -> overflow_after m.
-Proof. intros X (m2 & W2 & X2 & O). exists m2. split; auto. split; auto. eapply ext_trans; eauto. Qed.
-
-Lemma concat_none_after e1 m e2 : wf m -> owned m e1 -> owned m e2 -> concat e1 m e2 = None ->
-  overflow_after m.
-Proof.
-  intros W O1 O2 H. destruct (concat_none e1 m e2 W O1 O2 H) as (a & m1 & b & W1 & X1 & Oa & Ob & Hov).
-  exists m1. split; auto. split; auto. left. exists a, b. auto.
-Qed.
-
-Lemma mk_loop_none_after m e rng : wf m -> owned m e -> lr_valid rng -> mk_loop m e rng = None ->
-  overflow_after m.
-Proof.
-  intros W Oe Hv H. destruct (mk_loop_none m e rng W H) as (x & xr & K & Hov).
-  exists m. split; auto. split; [apply ext_refl|]. right. exists e, x, xr, rng. auto.
-Qed.
-
-Lemma str_go_none : forall rw m acc, wf m -> owned m acc -> goodw rw -> str_go m rw acc = None ->
-  overflow_after m.
-Proof.
-  induction rw as [|c rw IH]; intros m acc W Ho Hg H; cbn [str_go] in H; [discriminate|].
-  inversion Hg as [|? ? Hc Hg']; subst.
-  destruct (mchar_total m c W Hc) as (m1 & ch & C). rewrite C in H. cbn [bind] in H.
-  destruct (mchar_ok m c m1 ch W C) as (_ & W1 & X1 & Och & _).
-  destruct (concat ch m1 acc) as [[m2 r]|] eqn:C2; cbn [bind] in H.
-  - destruct (concat_ok ch m1 acc m2 r W1 Och (ext_owned m m1 acc X1 Ho) C2) as (W2 & X2 & Or & _).
-    apply (overflow_after_ext m m2 (ext_trans _ _ _ X1 X2)). eapply IH; eauto.
-  - apply (overflow_after_ext m m1 X1). apply (concat_none_after ch m1 acc W1 Och (ext_owned m m1 acc X1 Ho) C2).
-Qed.
+(** * [run] never panics on an accepted program (D11 repaired: concat and mk_loop are total; the only
+      remaining panics are the documented asserts of char/range/str, excluded by [prog_ok]). *)
 
 Lemma inter_total m a b : wf m -> exists m' t, inter m a b = Some (m', t).
 Proof. intros W. apply make_inter_total; auto. Qed.
 Lemma union_total m a b : wf m -> exists m' t, union m a b = Some (m', t).
 Proof. intros W. apply make_union_total; auto. Qed.
 
-Theorem run_none : forall p m, wf m -> prog_ok p = true -> run p m = None -> overflow_after m.
+Theorem run_total : forall p m, wf m -> prog_ok p = true -> exists m' t, run p m = Some (m', t).
 Proof.
   induction p as [| | | |a b|s|p IHp q IHq|p IHp q IHq|p IHp q IHq|p IHp|p IHp q IHq|p IHp lo hi|p IHp c];
-    intros m W Hok H; cbn [run prog_ok] in H, Hok; try discriminate.
-  - apply (range_none m a b W) in H. exfalso. apply H.
+    intros m W Hok; cbn [run prog_ok] in Hok |- *; try (eexists; eexists; reflexivity); try discriminate.
+  - destruct (range m a b) as [[m' t]|] eqn:H; [eauto|]. apply (range_none m a b W) in H. exfalso. apply H.
     apply andb_true_iff in Hok as [H1 H2]. apply N.leb_le in H1, H2. auto.
-  - apply goodwb_iff in Hok. unfold mstr in H.
-    apply (str_go_none (rev s) m (m_eps m) W (c_eps_o m (wf_consts m W))); [|exact H].
-    unfold goodw in *. rewrite Forall_forall in *. intros x Hx. apply Hok. apply in_rev. exact Hx.
+  - apply goodwb_iff in Hok. apply mstr_total_any; assumption.
   - apply andb_true_iff in Hok as [Hok1 Hok2].
-    destruct (run p m) as [[m1 a]|] eqn:R1; cbn [bind] in H; [|eapply IHp; eauto].
-    destruct (run_wf p m m1 a W Hok1 R1) as (W1 & X1 & Oa). apply (overflow_after_ext m m1 X1).
-    destruct (run q m1) as [[m2 b]|] eqn:R2; cbn [bind] in H; [|eapply IHq; eauto].
-    destruct (run_wf q m1 m2 b W1 Hok2 R2) as (W2 & X2 & Ob). apply (overflow_after_ext m1 m2 X2).
-    apply (concat_none_after a m2 b W2 (ext_owned m1 m2 a X2 Oa) Ob H).
+    destruct (IHp m W Hok1) as (m1 & a & R1). rewrite R1. cbn [bind].
+    destruct (run_wf p m m1 a W Hok1 R1) as (W1 & X1 & Oa).
+    destruct (IHq m1 W1 Hok2) as (m2 & b & R2). rewrite R2. cbn [bind].
+    apply concat_total_any.
   - apply andb_true_iff in Hok as [Hok1 Hok2].
-    destruct (run p m) as [[m1 a]|] eqn:R1; cbn [bind] in H; [|eapply IHp; eauto].
-    destruct (run_wf p m m1 a W Hok1 R1) as (W1 & X1 & Oa). apply (overflow_after_ext m m1 X1).
-    destruct (run q m1) as [[m2 b]|] eqn:R2; cbn [bind] in H; [|eapply IHq; eauto].
+    destruct (IHp m W Hok1) as (m1 & a & R1). rewrite R1. cbn [bind].
+    destruct (run_wf p m m1 a W Hok1 R1) as (W1 & X1 & Oa).
+    destruct (IHq m1 W1 Hok2) as (m2 & b & R2). rewrite R2. cbn [bind].
     destruct (run_wf q m1 m2 b W1 Hok2 R2) as (W2 & X2 & Ob).
-    destruct (union_total m2 a b W2) as (m3 & t3 & E). congruence.
+    apply union_total. exact W2.
   - apply andb_true_iff in Hok as [Hok1 Hok2].
-    destruct (run p m) as [[m1 a]|] eqn:R1; cbn [bind] in H; [|eapply IHp; eauto].
-    destruct (run_wf p m m1 a W Hok1 R1) as (W1 & X1 & Oa). apply (overflow_after_ext m m1 X1).
-    destruct (run q m1) as [[m2 b]|] eqn:R2; cbn [bind] in H; [|eapply IHq; eauto].
+    destruct (IHp m W Hok1) as (m1 & a & R1). rewrite R1. cbn [bind].
+    destruct (run_wf p m m1 a W Hok1 R1) as (W1 & X1 & Oa).
+    destruct (IHq m1 W1 Hok2) as (m2 & b & R2). rewrite R2. cbn [bind].
     destruct (run_wf q m1 m2 b W1 Hok2 R2) as (W2 & X2 & Ob).
-    destruct (inter_total m2 a b W2) as (m3 & t3 & E). congruence.
-  - destruct (run p m) as [[m1 a]|] eqn:R1; cbn [bind] in H; [|eapply IHp; eauto].
+    apply inter_total. exact W2.
+  - destruct (IHp m W Hok) as (m1 & a & R1). rewrite R1. cbn [bind].
     destruct (run_wf p m m1 a W Hok R1) as (W1 & X1 & Oa).
-    destruct (complement_ok m1 a W1 Oa) as (r & E & _). rewrite E in H. discriminate.
+    destruct (complement_ok m1 a W1 Oa) as (r & E & _). rewrite E. cbn [bind]. eauto.
   - apply andb_true_iff in Hok as [Hok1 Hok2].
-    destruct (run p m) as [[m1 a]|] eqn:R1; cbn [bind] in H; [|eapply IHp; eauto].
-    destruct (run_wf p m m1 a W Hok1 R1) as (W1 & X1 & Oa). apply (overflow_after_ext m m1 X1).
-    destruct (run q m1) as [[m2 b]|] eqn:R2; cbn [bind] in H; [|eapply IHq; eauto].
+    destruct (IHp m W Hok1) as (m1 & a & R1). rewrite R1. cbn [bind].
+    destruct (run_wf p m m1 a W Hok1 R1) as (W1 & X1 & Oa).
+    destruct (IHq m1 W1 Hok2) as (m2 & b & R2). rewrite R2. cbn [bind].
     destruct (run_wf q m1 m2 b W1 Hok2 R2) as (W2 & X2 & Ob).
-    unfold diff in H. destruct (complement_ok m2 b W2 Ob) as (r & E & _). rewrite E in H. cbn [bind] in H.
-    destruct (inter_total m2 a r W2) as (m3 & t3 & E3). congruence.
-  - destruct hi as [hi|]; apply andb_true_iff in Hok as [Hok1 Hok2]; apply N.leb_le in Hok2;
-      (destruct (run p m) as [[m1 a]|] eqn:R1; cbn [bind] in H; [|eapply IHp; eauto]);
-      destruct (run_wf p m m1 a W Hok1 R1) as (W1 & X1 & Oa); apply (overflow_after_ext m m1 X1).
-    + unfold smt_loop in H. destruct (N.leb_spec lo hi); [|discriminate].
-      apply (mk_loop_none_after m1 a (lr_finite lo hi) W1 Oa); [unfold lr_valid, lr_finite; lia | exact H].
-    + unfold Constructors.loop_inf in H.
-      apply (mk_loop_none_after m1 a (lr_infinite lo) W1 Oa); [exact Hok2 | exact H].
+    unfold diff. destruct (complement_ok m2 b W2 Ob) as (r & E & _). rewrite E. cbn [bind].
+    apply inter_total. exact W2.
+  - destruct hi as [hi|]; apply andb_true_iff in Hok as [Hok1 Hok2];
+      destruct (IHp m W Hok1) as (m1 & a & R1); rewrite R1; cbn [bind].
+    + unfold smt_loop. destruct (lo <=? hi); [apply mk_loop_total_any | eauto].
+    + unfold Constructors.loop_inf. apply mk_loop_total_any.
 Qed.
+
+(* the converse reading: an accepted program never makes the crate panic *)
+Theorem run_none : forall p m, wf m -> prog_ok p = true -> run p m <> None.
+Proof. intros p m W Hok H. destruct (run_total p m W Hok) as (m' & t & E). congruence. Qed.
